@@ -370,18 +370,19 @@ func executeRoute(route *ast.Route, ctx *server.Context, interp *interpreter.Int
 	// query string. Without this, no interpreted route ever saw a query
 	// parameter. The raw, still-encoded query is what ExtractRawQueryParams
 	// wants: it unescapes each key and value itself.
-	requestPath := ctx.Request.URL.Path
-	if raw := ctx.Request.URL.RawQuery; raw != "" {
-		requestPath += "?" + raw
-	}
+	// The (decoded) path and the raw query travel apart: appending the query
+	// to the path with "?" would let a segment containing %3F be read as the
+	// start of the query string and inject query parameters.
 
 	// Create request object for interpreter
 	request := &interpreter.Request{
-		Path:    requestPath,
-		Method:  ctx.Request.Method,
-		Params:  ctx.PathParams,
-		Body:    requestBody,
-		Headers: make(map[string]string),
+		Path:        ctx.Request.URL.Path,
+		RawQuery:    ctx.Request.URL.RawQuery,
+		HasRawQuery: true,
+		Method:      ctx.Request.Method,
+		Params:      ctx.PathParams,
+		Body:        requestBody,
+		Headers:     make(map[string]string),
 	}
 
 	// Copy headers
